@@ -134,9 +134,10 @@ def own_nodes(fn: ast.AST) -> Iterator[ast.AST]:
 def walk_no_nested(node: ast.AST) -> Iterator[ast.AST]:
     """Walk *node* itself and its children, not entering nested defs/lambdas."""
     yield node
-    if isinstance(node, (ast.FunctionDef, ast.AsyncFunctionDef, ast.Lambda, ast.ClassDef)):
-        return
     for c in ast.iter_child_nodes(node):
+        if isinstance(c, (ast.FunctionDef, ast.AsyncFunctionDef, ast.Lambda, ast.ClassDef)):
+            yield c
+            continue
         yield from walk_no_nested(c)
 
 
